@@ -1,3 +1,4 @@
+import Ntrip.Guards.TimeConsts
 import Ntrip.Properties.C17
 import Ntrip.Generated.Consts
 import Ntrip.Generated.Layouts
@@ -23,5 +24,8 @@ theorem tie_new_prev_zero :
 
 /-- Tie T1: guards and loop headers of the modelled code, regenerated from the source. -/
 theorem tie_guards_time : type_of% Ntrip.Guards.time := Ntrip.Guards.time
+
+/-- Tie T1 (constants): the literals of the time model are the constants of the source. -/
+theorem tie_time_consts : type_of% Ntrip.Guards.time_consts := Ntrip.Guards.time_consts
 
 end Ntrip.C17
